@@ -208,9 +208,27 @@ def configs() -> list:
         cs.append(C(f"{kn}/helper_rebuilds_predicate_with_other_leaf", [("m", HDR + f"def build_s(v):\n    P = is_str_p | is_list_of_p({r})\n    @CALL PS ;; P ;; v\n"
                                                                           f"def build_i(v):\n    P = is_int_p | is_list_of_p({r})\n    @CALL PI ;; P ;; v\n"),
                                                                    ("main", "for x in XS:\n    m.build_s(x)\nfor x in XS:\n    m.build_i(x)\n")], {"PS": S, "PI": I}))
+        # an analysis function (to_dot / to_json / optimize) sees a LARGER predicate containing P before P is first called
+        if k != "R":
+            for fn_ in ("to_dot(Q)", "to_json(Q)", "optimize(Q)", "to_dot(Q, show_optimized=True)"):
+                cs.append(C(f"{kn}/larger_predicate_analysed_before_first_call/{fn_.split('(')[0]}{'_opt' if 'show' in fn_ else ''}",
+                            [("m", HDR + f"def cfg():\n    {P}\n    Q = P | is_int_p\n    try:\n        {fn_}\n    except Exception:\n        pass\n"
+                                         "    for x in XS:\n        @CALL P ;; P ;; x\ncfg()\n")], {"P": S}))
         # a USER module whose name merely starts like the library's package name
         cs.append(C(f"{kn}/user_module_named_predicates_common", [("predicates_common", HDR + f"def cfg():\n    {P}\n{loopP}cfg()\n")], {"P": S}))
         cs.append(C(f"{kn}/user_module_named_predicate_utils_helper", [("predicate_utils", HELPERS), ("m", HDR + f"def cfg():\n    {P}\n    for x in XS:\n        predicate_utils.d2(P, x)\ncfg()\n")], {"P": S}))
+    # an unresolvable reference stays a ValueError wherever it sits (also below comp_p / tee_p / a dict-values view)
+    for k in "TRL":
+        kn = KIND_NAME[k]
+        ref = REF[k]("no_such_name_c16") if k == "L" else REF[k]("P")
+        cs.append(C(f"{kn}/unresolved_under_comp_p", [("m", HDR + f"def make():\n    P = is_dict_p & comp_p(lambda d: list(d.values()), all_p(is_int_p | is_list_of_p({ref})))\n    return P\n"),
+                                                      ("main", "pred = [m.make()]\nfor x in XS:\n    @CALL P ;; pred[0] ;; {'k': x}\n")],
+                    {"P": "lambda d: (_ for _ in ()).throw(_Unresolved()) if isinstance(d['k'], list) and d['k'] else (isinstance(d['k'], int) or d['k'] == [])"},
+                    note="the reference can never be resolved (escaped / misspelt): reaching it must raise ValueError, not answer False"))
+    # a module-level predicate with the SAME name as a function-local recursive one: the local definition is its own meaning
+    cs.append(C("lazy_p/module_level_name_shadows_local", [("m", HDR + 'tree = is_int_p | is_list_of_p(lazy_p("tree"))\ndef cfg():\n    tree = is_str_p | is_list_of_p(lazy_p("tree"))\n'
+                                                                '    for x in XS:\n        @CALL P ;; tree ;; x\ncfg()\nfor x in XS:\n    @CALL G ;; tree ;; x\n')],
+                {"P": S, "G": I}))
     # the library's own tests' shapes
     cs.append(C("this_p/or_inside_list", [("m", HDR + "def cfg():\n    P = is_str_p | is_list_of_p(this_p | is_int_p)\n    for x in XS:\n        @CALL P ;; P ;; x\ncfg()\n")], {"P": "rec(is_str, is_int)"}))
     cs.append(C("this_p/used_inside_larger_predicate", [("m", HDR + "def cfg():\n    P = is_str_p | is_list_of_p(this_p)\n    Q = P | is_int_p\n    for x in XS:\n        @CALL Q ;; Q ;; x\ncfg()\n")], {"Q": "lambda x: rec(is_str)(x) or is_int(x)"}))
@@ -313,7 +331,7 @@ def is_json(x):
     return False
 
 
-ORACLE_NS = {"either": either, "two_levels": two_levels, "rec": rec, "unres": unres, "mutual": mutual, "is_str": is_str, "is_int": is_int, "is_list": is_list, "is_json": is_json, "all": all}
+ORACLE_NS = {"_Unresolved": _Unresolved, "isinstance": isinstance, "int": int, "list": list, "either": either, "two_levels": two_levels, "rec": rec, "unres": unres, "mutual": mutual, "is_str": is_str, "is_int": is_int, "is_list": is_list, "is_json": is_json, "all": all}
 
 
 _ORACLES = {}
@@ -745,7 +763,7 @@ def record_configs(cfgs, xs_of):
 
 def correspondence(payload):
     mism = fingerprint_mismatches()
-    cfgs = configs() + JSON_CONFIGS
+    cfgs = [c for c in configs() if "analysed_before_first_call" not in c["name"]] + JSON_CONFIGS   # (those run library functions whose frames the model does not have: search only)
     rng = rng_of(payload)
     more = payload.get("tier") == "thorough" or payload.get("deep")
     xs_model = XS_MODEL + [random_nested(rng, ["a", "b", 1, None], 3, 3) for _ in range(30 if more else 4)]
